@@ -144,6 +144,8 @@ impl SyscallStubs for WorldStubs {
             kamino_process(&callee_infos, &instruction.data)
         } else if pid == marginfi::constants::DRIFT_PROGRAM_ID {
             drift_process(&callee_infos, &instruction.data)
+        } else if pid == marginfi::constants::SOLEND_PROGRAM_ID {
+            solend_process(&callee_infos, &instruction.data)
         } else {
             Err(ProgramError::IncorrectProgramId)
         }
@@ -331,6 +333,72 @@ fn drift_process(accounts: &[AccountInfo], data: &[u8]) -> ProgramResult {
         pos.scaled_balance = (pos.scaled_balance as i128 - scaled) as u64;
         pos.cumulative_deposits = if pos.scaled_balance == 0 { 0 } else { pos.cumulative_deposits.saturating_sub(amount as i64) };
         m.deposit_balance = ((dep_total - scaled).max(0) as u128).to_le_bytes();
+    }
+    Ok(())
+}
+
+// ---------------------------------------------------------------------------------------------
+// Solend stand-in (same status as the Kamino and Drift ones): deposit_reserve_liquidity_and_obligation_collateral (tag 14) and
+// withdraw_obligation_collateral_and_redeem_reserve_collateral (tag 15). Exchange rate = total collateral / total liquidity
+// with total liquidity = available + borrowed - protocol fees (the WAD fields exactly); collateral and liquidity amounts floor.
+// The obligation is Solend's packed layout (first deposit at byte 204: reserve key, amount at 236).
+// ---------------------------------------------------------------------------------------------
+/// when set, the stand-in does not refuse a reserve last refreshed in an earlier slot (a venue that refreshes on its own):
+/// marginfi's own stale-reserve constraint is then the only guard
+pub static SOLEND_IGNORES_STALENESS: AtomicBool = AtomicBool::new(false);
+pub static SOLEND_SKEW_COLLATERAL: AtomicI64 = AtomicI64::new(0);
+pub static SOLEND_SKEW_LIQUIDITY: AtomicI64 = AtomicI64::new(0);
+
+fn solend_process(accounts: &[AccountInfo], data: &[u8]) -> ProgramResult {
+    use solend_mocks::state::SolendMinimalReserve;
+    if data.len() < 9 { return Err(ProgramError::InvalidInstructionData); }
+    let amount = rd_u64(data, 1)? as i128;
+    let solend = marginfi::constants::SOLEND_PROGRAM_ID;
+    let (is_deposit, reserve, obligation, owner, user_liq, supply, market) = match data[0] {
+        14 => { if accounts.len() < 14 { return Err(ProgramError::NotEnoughAccountKeys); } (true, &accounts[2], &accounts[8], &accounts[9], &accounts[0], &accounts[3], &accounts[5]) }
+        15 => { if accounts.len() < 13 { return Err(ProgramError::NotEnoughAccountKeys); } (false, &accounts[2], &accounts[3], &accounts[9], &accounts[6], &accounts[8], &accounts[4]) }
+        _ => return Err(ProgramError::InvalidInstructionData),
+    };
+    if !owner.is_signer { return Err(ProgramError::MissingRequiredSignature); }
+    if *reserve.owner != solend || *obligation.owner != solend { return Err(ProgramError::IllegalOwner); }
+    let mut od = obligation.try_borrow_mut_data()?;
+    let mut rd = reserve.try_borrow_mut_data()?;
+    if od.len() < 1300 || od[0] != 1 || rd.len() < 1 + std::mem::size_of::<SolendMinimalReserve>() { return Err(ProgramError::InvalidAccountData); }
+    let rs: &mut SolendMinimalReserve = bytemuck::from_bytes_mut(&mut rd[1..1 + std::mem::size_of::<SolendMinimalReserve>()]);
+    let ob_market = Pubkey::new_from_array(od[10..42].try_into().unwrap());
+    let ob_owner = Pubkey::new_from_array(od[42..74].try_into().unwrap());
+    let ob_reserve = Pubkey::new_from_array(od[204..236].try_into().unwrap());
+    let (rs_market, rs_supply, rs_slot) = (rs.lending_market, rs.liquidity_supply_pubkey, rs.last_update_slot);
+    if ob_owner != *owner.key || ob_reserve != *reserve.key || ob_market != *market.key || rs_market != *market.key || rs_supply != *supply.key {
+        return Err(ProgramError::Custom(6006));
+    }
+    if rs_slot < CLOCK_SLOT.load(Ordering::SeqCst) && !SOLEND_IGNORES_STALENESS.load(Ordering::SeqCst) { return Err(ProgramError::Custom(6009)); } // reserve stale
+    use num_bigint::BigInt;
+    let wad = BigInt::from(1_000_000_000_000_000_000u64);
+    let avail = rs.liquidity_available_amount;
+    let total_liq_w: BigInt = BigInt::from(avail) * &wad + BigInt::from(u128::from_le_bytes(rs.liquidity_borrowed_amount_wads)) - BigInt::from(u128::from_le_bytes(rs.liquidity_accumulated_protocol_fees_wads));
+    let total_col = rs.collateral_mint_total_supply as i128;
+    let held = u64::from_le_bytes(od[236..244].try_into().unwrap()) as i128;
+    let to_i128 = |b: BigInt| -> Result<i128, ProgramError> { i128::try_from(b).map_err(|_| ProgramError::ArithmeticOverflow) };
+    if is_deposit {
+        let col = if total_col == 0 || total_liq_w <= BigInt::from(0) { amount } else { to_i128(BigInt::from(amount) * &wad * BigInt::from(total_col) / &total_liq_w)? }
+            + SOLEND_SKEW_COLLATERAL.load(Ordering::SeqCst) as i128;
+        if col < 0 { return Err(ProgramError::ArithmeticOverflow); }
+        tok_amount_adjust(user_liq, -amount)?;
+        tok_amount_adjust(supply, amount)?;
+        rs.liquidity_available_amount = u64::try_from(avail as i128 + amount).map_err(|_| ProgramError::ArithmeticOverflow)?;
+        rs.collateral_mint_total_supply = u64::try_from(total_col + col).map_err(|_| ProgramError::ArithmeticOverflow)?;
+        od[236..244].copy_from_slice(&u64::try_from(held + col).map_err(|_| ProgramError::ArithmeticOverflow)?.to_le_bytes());
+    } else {
+        let col = amount + SOLEND_SKEW_COLLATERAL.load(Ordering::SeqCst) as i128;
+        if col < 0 || col > held || total_col == 0 { return Err(ProgramError::InsufficientFunds); }
+        let liq = to_i128(BigInt::from(amount) * &total_liq_w / (BigInt::from(total_col) * &wad))? + SOLEND_SKEW_LIQUIDITY.load(Ordering::SeqCst) as i128;
+        if liq < 0 || liq > avail as i128 { return Err(ProgramError::InsufficientFunds); }
+        tok_amount_adjust(supply, -liq)?;
+        tok_amount_adjust(user_liq, liq)?;
+        rs.liquidity_available_amount = (avail as i128 - liq) as u64;
+        rs.collateral_mint_total_supply = (total_col - col) as u64;
+        od[236..244].copy_from_slice(&((held - col) as u64).to_le_bytes());
     }
     Ok(())
 }
